@@ -18,6 +18,8 @@ theorem View.ind {P : View ν α → Prop}
     (tensor : ∀ id t, P (.tensor id t))
     (matrix : ∀ id m r c, P (.matrix id m r c))
     (matrixOf : ∀ s r c, P s → P (.matrixOf s r c))
+    (mrange : ∀ s rows columns, P s → P (.mrange s rows columns))
+    (mreverse : ∀ s rows columns, P s → P (.mreverse s rows columns))
     (tmap : ∀ s, P s → P (.tmap s))
     (range : ∀ s rs, P s → P (.range s rs))
     (mask : ∀ s ms, P s → P (.mask s ms))
@@ -34,6 +36,8 @@ theorem View.ind {P : View ν α → Prop}
   | tensor id t => exact tensor id t
   | matrix id m r c => exact matrix id m r c
   | matrixOf s r c ih => exact matrixOf s r c ih
+  | mrange s rows columns ih => exact mrange s rows columns ih
+  | mreverse s rows columns ih => exact mreverse s rows columns ih
   | tmap s ih => exact tmap s ih
   | range s rs ih => exact range s rs ih
   | mask s rs ih => exact mask s rs ih
